@@ -496,6 +496,8 @@ class JournalStorageReplayResult:
         if self._study_exists(study_id, log):
             fs = self._studies.pop(study_id)
             assert fs._study_id == study_id
+            for trial_id in self._study_id_to_trial_ids.pop(study_id):
+                del self._trials[trial_id]
 
     def _apply_set_study_user_attr(self, log: dict[str, Any]) -> None:
         study_id = log["study_id"]
@@ -517,7 +519,7 @@ class JournalStorageReplayResult:
         if not self._study_exists(study_id, log):
             return
 
-        trial_id = len(self._trials)
+        trial_id = len(self._trial_id_to_study_id)
         distributions = {}
         if "distributions" in log:
             distributions = {k: json_to_distribution(v) for k, v in log["distributions"].items()}
